@@ -146,6 +146,32 @@ def run_doc(res, xmlschema, rec, schema, fam, version, text, prefixes, nsmap, wi
                                   f'{fam}: find({path}).match -> {via_match!r} but validation used {gov!r}')
                 else:
                     res.count('lookup:agree')
+                    # the other lookup entry points: findall / iterfind give the same first node as find; the parent path
+                    # with a wildcard last step (the form the lazy validators use) gives the governing declaration too
+                    if form == 'plain':
+                        res.count('lookup:other_entry_points')
+                        fa = schema.findall(path, nsmap)
+                        fi = list(schema.iterfind(path, nsmap))
+                        if not fa or fa[0] is not found or not fi or fi[0] is not found:
+                            res.violation('findall-or-iterfind-differs-from-find', dict(case0, path=path, tag=e.tag),
+                                          f'{fam}: find({path}) -> {found!r}, findall -> {fa[:2]!r}, iterfind -> {fi[:2]!r}')
+                        if '/' in path.strip('/') and resolved(found) is resolved(gov):
+                            # (not for substitution-group members: a wildcard step names no element, and the particle
+                            # found for a member is the head's, which selects the member when it decodes the element)
+                            wpath = path.rsplit('/', 1)[0] + '/*'
+                            gw = schema.get_element(e.tag, wpath, nsmap)
+                            if gw is None or resolved(gw) is not resolved(gov):
+                                res.violation('get_element-with-wildcard-step-differs-from-governing-declaration',
+                                              dict(case0, path=wpath, tag=e.tag),
+                                              f'{fam}: get_element({e.tag}, {wpath}) -> {gw!r} but validation used {gov!r}')
+                        own = {p: u for p, u in schema.namespaces.items() if p}
+                        if nsmap and all(own.get(p) == u for p, u in nsmap.items() if p and p != 'xsi') and '' not in nsmap:
+                            # the caller's prefixes are the schema document's own: no map at all means the same
+                            res.count('lookup:without_namespace_map')
+                            gn = schema.get_element(e.tag, path)
+                            if gn is None or resolved(gn) is not resolved(gov):
+                                res.violation('get_element-without-namespace-map-differs', dict(case0, path=path, tag=e.tag),
+                                              f'{fam}: get_element({e.tag}, {path}) without namespaces -> {gn!r} but validation used {gov!r}')
     # (2)/(3) partial runs
     full_obj = schema.to_objects(resource, validation='lax')
     full_obj = full_obj[0] if isinstance(full_obj, tuple) else full_obj
